@@ -189,7 +189,7 @@ def plan(prop, tier):
                     floor_evaluations=5000, assumptions=SIMK_ASSUMPTIONS + ["inotify_init1/inotify_add_watch are interposed by the harness (watch descriptors 1,2,3.. per instance like the kernel); record layout follows inotify(7): header 16 bytes, name padded with NULs to a multiple of 16"], also=[])
     if prop == "C13":
         rule = ("(a) real kernel differential (E6): the a10 operation on one fixture, the libc/std call on an identical twin, results and resulting state compared: read/write/read_vectored/write_vectored at offsets {cursor,0,random,2^32-1,2^32+1,2^40} with lengths incl. 0, truncate, allocate (+KEEP_SIZE), sync, advise, metadata vs fstat, open option matrix (exists x write x create x create_new x truncate x append x mode x kind) vs open(2), create_dir/remove_file/remove_dir/rename incl. failing cases vs libc, send/send_vectored/recv(PEEK)/socket options/local_addr/peer_addr/shutdown on stream pairs, pipe, splice - each file/socket operation on a regular and on a direct descriptor; "
-                "(b) ABI sweep on the simulated kernel: 28 operation kinds with random arguments (waitid ids/options, madvise, socket, listen, shutdown, fsync, fallocate, fadvise, ftruncate, statx, unlink, mkdir, rename, open flags/mode/kind, splice roles/offsets/flags, connect/bind addresses, send_to, socket options, accept, multishot accept, reads and receives into pool buffers and their multishot forms (exact flag byte), to_file_descriptor, socket protocols, read/write offsets), every submission field decoded with the independent ABI table and compared with the arguments, regular and direct descriptors; distinct = distinct (operation, arguments)")
+                "(b) ABI sweep on the simulated kernel: 32 operation kinds with random arguments (waitid ids/options, madvise, socket, listen, shutdown, fsync, fallocate, fadvise, ftruncate, statx, unlink, mkdir, rename, open flags/mode/kind, splice roles/offsets/flags, connect/bind addresses, send_to, socket options, accept, multishot accept, reads and receives into pool buffers and their multishot forms (exact flag byte), to_file_descriptor, pipe, local_addr/peer_addr, socket protocols, read/write offsets), every submission field decoded with the independent ABI table and compared with the arguments, regular and direct descriptors; distinct = distinct (operation, arguments)")
         if tier == "quick":
             jobs = [gen_job("c13", "native-debug", 500, 8, timeout=600), gen_job("c13abi", "native-debug", 2500, 8)]
         else:
